@@ -64,6 +64,9 @@ CONSTANTS
   SSizes,      \* stream sizes
   Filts,       \* subset of {"none", "client", "server"}
   Ops,         \* subset of {"pub", "rem", "exp", "sexp", "clear", "refresh", "poscheck"}
+  EpochCheck,  \* TRUE = as coded: the live transition compares the epoch of its stream read with the position's epoch for
+               \* every kind of transition; FALSE = only for recoveries (witness: a Clear between the top probe and the
+               \* read is then unnoticed, the broker validates Since.Epoch only for an existing channel)
   MaxJumps,    \* out-of-order client moves per subscription attempt (0 = canonical order only)
   Pres,        \* numbers of environment operations allowed before the client starts ({MaxOps} = no restriction;
                \* smaller values make -simulate place more operations inside the protocol)
@@ -83,6 +86,7 @@ VARIABLES
   state,       \* broker: key -> [id, off]   (id = 0: absent)
   top, win,    \* broker stream: top offset, retained window <<[off, key, id, rem]>>
   epoch,       \* broker epoch (a number; Clear starts a new one)
+  exists,      \* the channel exists in the broker (Clear deletes it; any read or publish re-creates it with the new epoch)
   log,         \* history variable: every stream entry ever appended, with its epoch
   wire,        \* FIFO of deliveries handed over by the broker, not yet received by the node
   nops,
@@ -100,7 +104,7 @@ VARIABLES
   out,         \* frames written to the connection (history variable, not in the view)
   step
 
-vars == <<state, top, win, epoch, log, wire, nops, cfg, pc, hub, buf, sub, srv, rd, tr, cl, resubs, sfnow, refreshed, hz, out, step>>
+vars == <<state, top, win, epoch, exists, log, wire, nops, cfg, pc, hub, buf, sub, srv, rd, tr, cl, resubs, sfnow, refreshed, hz, out, step>>
 
 NoE  == [id |-> 0, off |-> 0]
 P0   == [off |-> 0, ep |-> 0]
@@ -135,7 +139,7 @@ Init ==
         /\ win = IF HasStream THEN Trim(es) ELSE <<>>
         /\ log = IF HasStream THEN [i \in 1..n |-> [ep |-> 1, off |-> i, key |-> i]] ELSE <<>>
         /\ nops = n
-  /\ epoch = 1 /\ wire = <<>>
+  /\ epoch = 1 /\ exists = TRUE /\ wire = <<>>
   /\ pc = "idle" /\ hub = FALSE /\ buf = <<>> /\ sub = NoSub /\ srv = NoSrv /\ rd = NoRd /\ tr = NoTr
   /\ cl = IF cfg.kind = "fresh" THEN FreshCl ELSE [FreshCl EXCEPT !.ph = "init"]
   /\ resubs = 0 /\ sfnow = "keep" /\ refreshed = FALSE /\ hz = {}
@@ -193,7 +197,7 @@ Change(k, removed) ==
                           /\ log' = Append(log, [ep |-> epoch, off |-> off, key |-> k])
                      ELSE UNCHANGED <<top, win, log>>
      /\ wire' = Append(wire, [id |-> id, key |-> k, off |-> off, ep |-> epoch, rem |-> removed, blk |-> FALSE])
-     /\ UNCHANGED <<epoch, cfg, pc, hub, buf, sub, srv, rd, tr, cl, resubs, sfnow, refreshed, hz, out>>
+     /\ exists' = TRUE /\ UNCHANGED <<epoch, cfg, pc, hub, buf, sub, srv, rd, tr, cl, resubs, sfnow, refreshed, hz, out>>
 
 Publish(k) == CanOp("pub") /\ Change(k, FALSE) /\ step' = [act |-> "Publish", key |-> k, id |-> nops + 1]
 RemoveKey(k) == CanOp("rem") /\ state[k].id # 0 /\ Change(k, TRUE) /\ step' = [act |-> "Remove", key |-> k, id |-> nops + 1]
@@ -204,12 +208,13 @@ KeyExpiry(k) == /\ CanOp("exp") /\ cfg.mode \in {"eph", "rec"} /\ state[k].id # 
 StreamExpiry ==
   /\ CanOp("sexp") /\ HasStream /\ win # <<>>
   /\ win' = <<>> /\ nops' = nops + 1
-  /\ UNCHANGED <<state, top, epoch, log, wire, cfg, pc, hub, buf, sub, srv, rd, tr, cl, resubs, sfnow, refreshed, hz, out>>
+  /\ UNCHANGED <<state, top, epoch, exists, log, wire, cfg, pc, hub, buf, sub, srv, rd, tr, cl, resubs, sfnow, refreshed, hz, out>>
   /\ step' = [act |-> "StreamExpiry"]
-\* Clear: the channel is deleted; the next access creates a stream with a new epoch
+\* Clear (the same for a channel evicted after MetaTTL): the channel is deleted; the next access creates a stream with a new
+\* epoch (`epoch` is already the number that access will see, `exists` tells whether it happened)
 Clear ==
   /\ CanOp("clear")
-  /\ state' = [k \in Keys |-> NoE] /\ top' = 0 /\ win' = <<>> /\ epoch' = epoch + 1 /\ nops' = nops + 1
+  /\ state' = [k \in Keys |-> NoE] /\ top' = 0 /\ win' = <<>> /\ epoch' = epoch + 1 /\ exists' = FALSE /\ nops' = nops + 1
   /\ hz' = IF ~HasStream /\ (cl.ph = "live" \/ InWindow) THEN hz \cup {"clear"} ELSE hz
   /\ UNCHANGED <<log, wire, cfg, pc, hub, buf, sub, srv, rd, tr, cl, resubs, sfnow, refreshed, out>>
   /\ step' = [act |-> "Clear"]
@@ -249,14 +254,14 @@ Deliver ==
   /\ wire' = Tail(wire)
   /\ Receive(Head(wire))
   /\ hz' = IF InWindow THEN hz \cup {"win"} ELSE hz
-  /\ UNCHANGED <<state, top, win, epoch, log, nops, cfg, pc, srv, rd, tr, resubs, sfnow, refreshed>>
+  /\ UNCHANGED <<state, top, win, epoch, exists, log, nops, cfg, pc, srv, rd, tr, resubs, sfnow, refreshed>>
   /\ step' = [act |-> "Deliver", id |-> Head(wire).id]
 
 \* the delivery enters the node while the buffer is locked: its goroutine parks on pubBufferMu (at most one at a time here)
 DeliverBlocked ==
   /\ wire # <<>> /\ ~Head(wire).blk /\ LockedOut(Head(wire))
   /\ wire' = <<[Head(wire) EXCEPT !.blk = TRUE]>> \o Tail(wire)
-  /\ UNCHANGED <<state, top, win, epoch, log, nops, cfg, pc, hub, buf, sub, srv, rd, tr, cl, resubs, sfnow, refreshed, hz, out>>
+  /\ UNCHANGED <<state, top, win, epoch, exists, log, nops, cfg, pc, hub, buf, sub, srv, rd, tr, cl, resubs, sfnow, refreshed, hz, out>>
   /\ step' = [act |-> "DeliverBlocked", id |-> Head(wire).id]
 
 \* StopBuffering released the lock: the parked delivery re-checks inSubscribe (now 0) and is written to the connection
@@ -265,7 +270,7 @@ Unblock ==
   /\ Unblocking
   /\ wire' = Tail(wire)
   /\ Receive(Head(wire))
-  /\ UNCHANGED <<state, top, win, epoch, log, nops, cfg, pc, srv, rd, tr, resubs, sfnow, refreshed, hz>>
+  /\ UNCHANGED <<state, top, win, epoch, exists, log, nops, cfg, pc, srv, rd, tr, resubs, sfnow, refreshed, hz>>
   /\ step' = [act |-> "Unblock", id |-> Head(wire).id]
 
 ---------------------------------------------------------------------------
@@ -287,7 +292,10 @@ GetFrom(o, limit) ==
 
 \* Node.MapStreamRead(since, limit) on the memory broker: [err, pubs, pos]
 StreamRead(since, limit) ==
-  IF since.ep # epoch THEN [err |-> TRUE, pubs |-> <<>>, pos |-> P0, hole |-> FALSE]
+  \* a channel that does not exist (after Clear / meta eviction) is created by the read: fresh epoch, offset 0, NO error -
+  \* the broker's own Since.Epoch validation runs only for an existing channel (mapHub.getStream)
+  IF ~exists THEN [err |-> FALSE, pubs |-> <<>>, pos |-> [off |-> 0, ep |-> epoch], hole |-> FALSE]
+  ELSE IF since.ep # epoch THEN [err |-> TRUE, pubs |-> <<>>, pos |-> P0, hole |-> FALSE]
   ELSE IF top = since.off THEN [err |-> FALSE, pubs |-> <<>>, pos |-> [off |-> top, ep |-> epoch], hole |-> FALSE]
   ELSE LET ps == IF since.off >= top THEN <<>> ELSE GetFrom(since.off + 1, limit)
            trimmed == since.off > 0 /\ ps # <<>> /\ ps[1].off > since.off + 1        \* as coded
@@ -327,6 +335,7 @@ StateCmd ==
                /\ rd' = [NoRd EXCEPT !.pubs = ents, !.pos = pos, !.orig = first,
                                      !.eff = IF first THEN pos ELSE [off |-> srv1.off, ep |-> srv1.ep]]
                /\ UNCHANGED <<out, cl>>
+  /\ exists' = TRUE      \* ReadState (re-)creates the channel
   /\ UNCHANGED <<state, top, win, epoch, log, wire, nops, cfg, hub, buf, sub, tr, resubs, sfnow, refreshed, hz>>
   /\ step' = [act |-> "StateCmd"]
 
@@ -338,8 +347,8 @@ StateToLive == [since |-> rd.eff, spubs |-> rd.pubs, sl |-> TRUE, isrec |-> FALS
 StateLast ==
   /\ pc = "sr"
   /\ IF ~HasStream
-       THEN BeginTransition(StateToLive) /\ UNCHANGED rd
-       ELSE pc' = "sp" /\ rd' = [rd EXCEPT !.cur = top] /\ UNCHANGED <<tr, hub, buf, srv>>
+       THEN BeginTransition(StateToLive) /\ UNCHANGED <<rd, exists>>
+       ELSE pc' = "sp" /\ rd' = [rd EXCEPT !.cur = top] /\ exists' = TRUE /\ UNCHANGED <<tr, hub, buf, srv>>
   /\ UNCHANGED <<state, top, win, epoch, log, wire, nops, cfg, sub, cl, resubs, sfnow, refreshed, hz, out>>
   /\ step' = [act |-> "StateLast"]
 
@@ -351,7 +360,7 @@ StateDecide ==
        ELSE /\ pc' = "idle" /\ rd' = NoRd /\ UNCHANGED <<tr, hub, buf, srv>>
             /\ Emit([t |-> "state", ents |-> rd.pubs, cur |-> 0,
                      off |-> IF cl.first THEN rd.pos.off ELSE srv.off, ep |-> rd.pos.ep])
-  /\ UNCHANGED <<state, top, win, epoch, log, wire, nops, cfg, sub, resubs, sfnow, refreshed, hz>>
+  /\ UNCHANGED <<state, top, win, epoch, exists, log, wire, nops, cfg, sub, resubs, sfnow, refreshed, hz>>
   /\ step' = [act |-> "StateDecide"]
 
 StreamToLive(orig) == [since |-> [off |-> cl.off, ep |-> cl.ep], spubs |-> <<>>, sl |-> FALSE, isrec |-> TRUE, recov |-> cl.rec, csr |-> orig]
@@ -359,9 +368,9 @@ StreamToLive(orig) == [since |-> [off |-> cl.off, ep |-> cl.ep], spubs |-> <<>>,
 \* STREAM phase, after the stream start is known: close enough => go live, else one stream page
 StreamPageOrLive(ss, orig) ==
   IF cl.off + cfg.page >= ss
-    THEN BeginTransition(StreamToLive(orig)) /\ UNCHANGED <<out, cl, hz>>
+    THEN BeginTransition(StreamToLive(orig)) /\ UNCHANGED <<out, cl, hz, exists>>
     ELSE LET r == StreamRead([off |-> cl.off, ep |-> cl.ep], cfg.page) IN
-         /\ pc' = "idle" /\ UNCHANGED <<tr, hub, buf>>
+         /\ pc' = "idle" /\ exists' = TRUE /\ UNCHANGED <<tr, hub, buf>>
          /\ hz' = IF r.hole THEN hz \cup {"hole"} ELSE hz
          /\ IF r.err THEN srv' = NoSrv /\ Emit(ErrFrame)
             ELSE /\ UNCHANGED srv
@@ -377,7 +386,7 @@ StreamCmd ==
        THEN \* first stream request: stream position read, parked after it
             /\ srv' = [srv1 EXCEPT !.ssc = TRUE, !.ss = top]
             /\ rd' = [NoRd EXCEPT !.orig = ~srv.has]
-            /\ pc' = "tp" /\ UNCHANGED <<tr, hub, buf, out, cl, hz>>
+            /\ pc' = "tp" /\ exists' = TRUE /\ UNCHANGED <<tr, hub, buf, out, cl, hz>>
        ELSE StreamPageOrLive(srv1.ss, FALSE) /\ UNCHANGED rd
   /\ UNCHANGED <<state, top, win, epoch, log, wire, nops, cfg, sub, resubs, sfnow, refreshed>>
   /\ step' = [act |-> "StreamCmd"]
@@ -393,7 +402,7 @@ JoinCmd ==
   /\ pc = "idle" /\ cl.ph = "join"
   \* the LIVE request carries recover = true; with a reservation the command is a continuation (no OnSubscribe)
   /\ BeginTransition([StreamToLive(~srv.has) EXCEPT !.recov = TRUE])
-  /\ UNCHANGED <<state, top, win, epoch, log, wire, nops, cfg, sub, rd, cl, resubs, sfnow, refreshed, hz, out>>
+  /\ UNCHANGED <<state, top, win, epoch, exists, log, wire, nops, cfg, sub, rd, cl, resubs, sfnow, refreshed, hz, out>>
   /\ step' = [act |-> "JoinCmd"]
 
 \* live transition: MapStreamRead since the position (limit + 1 entries)
@@ -402,7 +411,7 @@ TransRead ==
   /\ LET r == StreamRead(tr.since, LiveLimit + 1)
      IN /\ rd' = [rd EXCEPT !.err = r.err, !.pubs = r.pubs, !.pos = r.pos]
         /\ hz' = IF r.hole THEN hz \cup {"hole"} ELSE hz
-  /\ pc' = "g3"
+  /\ pc' = "g3" /\ exists' = TRUE
   /\ UNCHANGED <<state, top, win, epoch, log, wire, nops, cfg, hub, buf, sub, srv, tr, cl, resubs, sfnow, refreshed, out>>
   /\ step' = [act |-> "TransRead"]
 
@@ -417,7 +426,7 @@ TransFinish ==
   /\ \/ pc = "g3"
      \/ pc = "g1" /\ ~HasStream
   /\ IF HasStream
-       THEN IF rd.err \/ tr.since.ep # rd.pos.ep \/ Len(rd.pubs) > LiveLimit
+       THEN IF rd.err \/ ((tr.isrec \/ EpochCheck) /\ tr.since.ep # rd.pos.ep) \/ Len(rd.pubs) > LiveLimit
               THEN Rollback /\ Emit(ErrFrame)
               ELSE LET rec == [i \in 1..Len(rd.pubs) |-> [off |-> rd.pubs[i].off, f |-> FALSE, key |-> rd.pubs[i].key,
                                                           id |-> rd.pubs[i].id, rem |-> rd.pubs[i].rem]]
@@ -437,14 +446,14 @@ TransFinish ==
             /\ Emit([t |-> "live", ents |-> ProtoEnts(tr.spubs), pubs |-> ProtoPubs(Visible(buf)),
                      off |-> 0, ep |-> tr.since.ep, rec |-> tr.isrec /\ tr.recov])
   /\ rd' = NoRd /\ tr' = NoTr
-  /\ UNCHANGED <<state, top, win, epoch, log, wire, nops, cfg, resubs, sfnow, refreshed, hz>>
+  /\ UNCHANGED <<state, top, win, epoch, exists, log, wire, nops, cfg, resubs, sfnow, refreshed, hz>>
   /\ step' = [act |-> "TransFinish"]
 
 \* the rest of the tail: StopBuffering (the subscriber was parked at the hook "map:replied" right after the reply)
 TransStop ==
   /\ pc = "rp"
   /\ pc' = "idle"
-  /\ UNCHANGED <<state, top, win, epoch, log, wire, nops, cfg, hub, buf, sub, srv, rd, tr, cl, resubs, sfnow, refreshed, hz, out>>
+  /\ UNCHANGED <<state, top, win, epoch, exists, log, wire, nops, cfg, hub, buf, sub, srv, rd, tr, cl, resubs, sfnow, refreshed, hz, out>>
   /\ step' = [act |-> "TransStop"]
 
 ---------------------------------------------------------------------------
@@ -456,6 +465,7 @@ Snapshot ==
   /\ cl' = [cl EXCEPT !.ph = IF cfg.kind = "rlive" THEN "join" ELSE "stream",
                       !.map = [k \in Keys |-> IF Filtered(k) THEN 0 ELSE state[k].id],
                       !.off = top, !.ep = epoch, !.first = FALSE, !.rec = TRUE, !.full = TRUE]
+  /\ exists' = TRUE
   /\ UNCHANGED <<state, top, win, epoch, log, wire, nops, cfg, pc, hub, buf, sub, srv, rd, tr, resubs, sfnow, refreshed, hz, out>>
   /\ step' = [act |-> "Snapshot"]
 
@@ -468,14 +478,14 @@ Jump(to) ==
      \/ to = "join" /\ cl.ph \in {"state", "stream"}
      \/ to = "state" /\ cl.ph = "stream" /\ cl.cur # 0
   /\ cl' = [cl EXCEPT !.ph = to, !.jumps = @ + 1]
-  /\ UNCHANGED <<state, top, win, epoch, log, wire, nops, cfg, pc, hub, buf, sub, srv, rd, tr, resubs, sfnow, refreshed, hz, out>>
+  /\ UNCHANGED <<state, top, win, epoch, exists, log, wire, nops, cfg, pc, hub, buf, sub, srv, rd, tr, resubs, sfnow, refreshed, hz, out>>
   /\ step' = [act |-> "Jump", to |-> to]
 
 \* told unrecoverable / insufficient / invalidated: drop everything and subscribe from scratch
 Resub ==
   /\ cl.ph = "told" /\ resubs < MaxResub /\ pc = "idle"
   /\ cl' = FreshCl /\ resubs' = resubs + 1
-  /\ UNCHANGED <<state, top, win, epoch, log, wire, nops, cfg, pc, hub, buf, sub, srv, rd, tr, sfnow, refreshed, hz, out>>
+  /\ UNCHANGED <<state, top, win, epoch, exists, log, wire, nops, cfg, pc, hub, buf, sub, srv, rd, tr, sfnow, refreshed, hz, out>>
   /\ step' = [act |-> "Resub"]
 
 \* sub refresh whose callback returns a server tags filter: a changed one invalidates the map subscription
@@ -492,7 +502,7 @@ SubRefresh(changed) ==
             /\ out' = out \o <<[t |-> "refok"], [t |-> "unsub", code |-> UnsubInvalidated]>>
             /\ cl' = Client(cl, [t |-> "unsub", code |-> UnsubInvalidated])
        ELSE /\ UNCHANGED <<sfnow, sub, hub>> /\ Emit([t |-> "refok"])
-  /\ UNCHANGED <<state, top, win, epoch, log, wire, nops, cfg, pc, buf, srv, rd, tr, resubs, hz>>
+  /\ UNCHANGED <<state, top, win, epoch, exists, log, wire, nops, cfg, pc, buf, srv, rd, tr, resubs, hz>>
   /\ step' = [act |-> "SubRefresh", changed |-> changed]
 
 \* periodic position check of the connection (Client.updatePresence -> checkPosition): the position of a live positioned
@@ -502,6 +512,7 @@ PosCheck ==
   /\ "poscheck" \in Ops /\ HasStream /\ sub.st = "live" /\ pc = "idle"
   /\ ~(sub.ep = epoch /\ sub.pos = top)
   /\ Insufficient
+  /\ exists' = TRUE      \* the check reads the stream position
   /\ UNCHANGED <<state, top, win, epoch, log, wire, nops, cfg, pc, srv, rd, tr, resubs, sfnow, refreshed, hz>>
   /\ step' = [act |-> "PosCheck"]
 
@@ -563,5 +574,5 @@ TypeOK == /\ nops <= cfg.n0 + MaxOps /\ Len(wire) <= MaxLag /\ resubs <= MaxResu
           /\ (sub.st = "live" => hub)
           /\ (pc \in {"g1", "g3"} => hub /\ srv.has)
 
-View == <<state, top, win, epoch, log, wire, nops, cfg, pc, hub, buf, sub, srv, rd, tr, cl, resubs, sfnow, refreshed, hz>>
+View == <<state, top, win, epoch, exists, log, wire, nops, cfg, pc, hub, buf, sub, srv, rd, tr, cl, resubs, sfnow, refreshed, hz>>
 =============================================================================
